@@ -230,6 +230,18 @@ def F29():
     return r != ("int", ("object", 1, 2)), f"f(1, 2) with call_next(y=y, x=x): {str(r)[:90]}"
 
 
+def F38():
+    """C12: a union / an intersection against a value-dependent type does not compare to mirror-image answers."""
+    from ovld.mro import typeorder
+    from ovld.types import Intersection, Union as OUnion
+    D = Dependent[int, lambda x: True]
+    pairs = [(OUnion[bool, str], D), (Intersection[int, str], D)]
+    got = [(str(typeorder(a, b)), str(typeorder(b, a))) for a, b in pairs]
+    mirror = {"Order.LESS": "Order.MORE", "Order.MORE": "Order.LESS"}
+    bad = [g for g in got if mirror.get(g[0], g[0]) != g[1]]
+    return bool(bad), f"(typeorder(a, b), typeorder(b, a)) for Union[bool, str] / Intersection[int, str] against Dependent[int, c]: {got}"
+
+
 def F33():
     """C03: a method whose parameters all have defaults rejects the call without arguments."""
     @ovld
@@ -464,7 +476,7 @@ def F20():
 
 
 ALL = ["F01", "F02", "F03", "F04", "F05", "F06", "F07", "F08", "F09", "F10", "F11",
-       "F12", "F13", "F14", "F15", "F16", "F17", "F18", "F19", "F20", "F21", "F22", "F29", "F33"]
+       "F12", "F13", "F14", "F15", "F16", "F17", "F18", "F19", "F20", "F21", "F22", "F29", "F33", "F38"]
 
 if __name__ == "__main__":
     ids = sys.argv[1:] or ALL
